@@ -327,15 +327,21 @@ class Html(base.Content):
     css_classes = cls.concate(css_classes)
     options = cls.concate(options)
     styles = cls.style_str(styles)
+    # NOTE: attribute values are escaped, so that they cannot end the quoted
+    # value or the tag.
+    def _attr(v: Any) -> str:
+      # Values are delimited by double quotes (single quotes are harmless).
+      return html_lib.escape(str(v), quote=False).replace('"', '&quot;')
+
     s.write(
         f'<{tag}',
         f' {options}' if options else None,
-        f' class="{css_classes}"' if css_classes else None,
-        f' style="{styles}"' if styles else None,
+        f' class="{_attr(css_classes)}"' if css_classes else None,
+        f' style="{_attr(styles)}"' if styles else None,
     )
     for k, v in properties.items():
       if v is not None:
-        s.write(f' {k.replace("_", "-")}="{v}"')
+        s.write(f' {k.replace("_", "-")}="{_attr(v)}"')
     s.write('>')
 
     # Write the inner HTML.
